@@ -67,9 +67,13 @@ type poolRouter struct {
 	last  *rux.Context
 }
 
-func newPoolRouter(hook bool) *poolRouter {
+func newPoolRouter(hook, caching bool) *poolRouter {
 	pr := &poolRouter{ctxs: map[*rux.Context]bool{}}
-	r := rux.New(rux.HandleMethodNotAllowed)
+	opts := []func(*rux.Router){rux.HandleMethodNotAllowed}
+	if caching {
+		opts = append(opts, cachingOpts(8)...)
+	}
+	r := newRouter(opts...)
 	pr.r = r
 	r.Use(func(c *rux.Context) { // the probe: first handler of every request
 		o := &poolObs{DataNil: c.Data() == nil, Errors: len(c.Errors), Aborted: c.IsAborted(), Status: c.StatusCode(), Length: c.Length()}
@@ -213,7 +217,11 @@ func poolReplay(s *Summary, raw json.RawMessage) {
 	for _, q := range c.H {
 		hook = hook || q.Kind == "panichook"
 	}
-	pr := newPoolRouter(hook)
+	// histories that end in a request for a dynamic route run on a CACHING router: what an earlier handler did to the
+	// parameters it was given must not be what the route cache hands to the next request of that URL
+	lastKind := c.H[len(c.H)-1].Kind
+	caching := lastKind == "dynamic" || lastKind == "optional"
+	pr := newPoolRouter(hook, caching)
 	var obs *poolObs
 	var code int
 	var body string
@@ -221,7 +229,7 @@ func poolReplay(s *Summary, raw json.RawMessage) {
 		obs, code, body = pr.serve(&c.H[i])
 	}
 	lastReq := c.H[len(c.H)-1]
-	twinObs, twinCode, twinBody := newPoolRouter(hook).serve(&lastReq)
+	twinObs, twinCode, twinBody := newPoolRouter(hook, caching).serve(&lastReq)
 	s.Compared++
 	hist := fmt.Sprintf("%v", c.H)
 	desc := func(what string) map[string]any {
